@@ -21,7 +21,6 @@ import argparse
 import hashlib
 import importlib
 import json
-import multiprocessing as mp
 import os
 import sys
 import time
@@ -114,6 +113,57 @@ def _shard_entry(args):
         return ("err", name, traceback.format_exc())
 
 
+def run_forked(work, jobs):
+    """Run every work unit in its own child forked from the main thread (identical start state for every shard, whatever
+    the job count or scheduling: generation must not depend on which worker ran which shard)."""
+    import pickle
+    import tempfile
+
+    jobs = max(1, jobs)
+    tmpdir = tempfile.mkdtemp(prefix="verif-shards-")
+    results = [None] * len(work)
+    running = {}
+    nxt = 0
+    try:
+        while nxt < len(work) or running:
+            while nxt < len(work) and len(running) < jobs:
+                path = os.path.join(tmpdir, f"{nxt}.pkl")
+                pid = os.fork()
+                if pid == 0:
+                    code = 0
+                    try:
+                        out = _shard_entry(work[nxt])
+                        with open(path, "wb") as f:
+                            pickle.dump(out, f)
+                    except BaseException:
+                        code = 3
+                        try:
+                            with open(path, "wb") as f:
+                                pickle.dump(("err", work[nxt][1], traceback.format_exc()), f)
+                        except Exception:
+                            pass
+                    finally:
+                        sys.stdout.flush()
+                        sys.stderr.flush()
+                        os._exit(code)
+                running[pid] = (nxt, path)
+                nxt += 1
+            pid, status = os.wait()
+            if pid not in running:
+                continue
+            idx, path = running.pop(pid)
+            try:
+                with open(path, "rb") as f:
+                    results[idx] = pickle.load(f)
+            except Exception:
+                results[idx] = ("err", work[idx][1], f"shard process ended without a result (wait status {status})")
+    finally:
+        import shutil
+
+        shutil.rmtree(tmpdir, ignore_errors=True)
+    return results
+
+
 def load_known():
     p = os.path.join(VERIF, "known_findings.json")
     if not os.path.exists(p):
@@ -122,8 +172,26 @@ def load_known():
         return json.load(f)["findings"]
 
 
+def pin_hypothesis():
+    """Make generation a pure function of (seed, strategy).
+
+    Hypothesis biases draws towards constants harvested from whatever local modules happen to be in sys.modules, which would make
+    the generated cases depend on import order and on which worker process ran which shard.  Replace the pool by an empty one.
+    """
+    try:
+        import hypothesis.internal.conjecture.providers as _p
+        from sortedcontainers import SortedSet
+
+        empty = _p.Constants(integers=SortedSet(), floats=SortedSet(key=_p.float_to_int), bytes=SortedSet(), strings=SortedSet())
+        _p._get_local_constants = lambda: empty
+    except Exception:  # pragma: no cover - older/newer hypothesis without this mechanism
+        pass
+
+
 def hyp_settings(max_examples, **kw):
     from hypothesis import HealthCheck, Phase, settings
+
+    pin_hypothesis()
 
     phases = kw.pop("phases", None)
     if phases is None:
@@ -209,12 +277,7 @@ def main(argv=None):
         units = [u for u in units if a.only in u[0]]
     work = [(modname, name, shard_seed(seed, pid, name), a.tier, kw) for name, kw in units]
     errors = []
-    if a.jobs <= 1 or len(work) <= 1:
-        outs = [_shard_entry(w) for w in work]
-    else:
-        ctx = mp.get_context("fork")
-        with ctx.Pool(min(a.jobs, len(work))) as pool:
-            outs = pool.map(_shard_entry, work, chunksize=1)
+    outs = run_forked(work, a.jobs)
     for st, name, r in outs:
         if st == "ok":
             total.merge(r)
